@@ -145,10 +145,10 @@ BaseVal(m, t, d, full) ==
       [] t.t = "cls" -> Base(m, FirstConcrete(m, t.name), d, full)
       [] t.t = "list" -> IF full /\ d > 0 THEN VList(<<BaseVal(m, t.item, IF t.item.t = "cls" THEN d - 1 ELSE d, full)>>) ELSE VList(<<>>)
 Base1(m, c, d, full, ps) ==
-    VInst(c, [i \in 1..Len(ps) |->
+    VInst(c, T([i \in 1..Len(ps) |->
         [n |-> ps[i].src,
          v |-> IF ps[i].opt /\ (~full \/ (d <= 0 /\ ~IsPrim(ps[i].type) /\ ps[i].type.t # "enum")) THEN VNone
-               ELSE BaseVal(m, ps[i].type, IF ps[i].type.t = "cls" THEN d - 1 ELSE d, full)]])
+               ELSE BaseVal(m, ps[i].type, IF ps[i].type.t = "cls" THEN d - 1 ELSE d, full)]]))
 Base(m, c, d, full) == Base1(m, c, d, full, AllProps(m, c))
 
 WithField(x, i, v) == [x EXCEPT !.fields[i].v = v]
